@@ -908,7 +908,7 @@ func (sp *StreamParser) ExecCmd(cb RdbObjExecutor) {
 		if sp.rtype >= RDBTypeStreamListPacks2 {
 			cgOffset = r.ReadLength64P() // offset
 			if util.VersionGE(sp.targetRedisVersion, "7", util.VersionMajor) {
-				xgcArgs = append(xgcArgs, "ENTRIESREAD", cgOffset)
+				xgcArgs = append(xgcArgs, "ENTRIESREAD", int64(cgOffset)) // unknown (2^64-1) is sent as -1
 			}
 		} else {
 			if util.VersionGE(sp.targetRedisVersion, "7", util.VersionMajor) {
@@ -940,7 +940,7 @@ func (sp *StreamParser) ExecCmd(cb RdbObjExecutor) {
 					}
 					return uint64(SCG_INVALID_ENTRIES_READ)
 				}()
-				xgcArgs = append(xgcArgs, "ENTRIESREAD", cgOffset)
+				xgcArgs = append(xgcArgs, "ENTRIESREAD", int64(cgOffset)) // unknown (2^64-1) is sent as -1
 			}
 		}
 
